@@ -19,20 +19,20 @@ Import RecordSetNotations.
 Theorem C10_complete_actor : forall cx s c p oid cid sz ok s' d,
   step cx s (OComplete c p oid cid sz ok) = (s', OutTx COk d) ->
   acts_for s c p = true /\ exists o sid sh, orders s !! oid = Some o /\ shard_by_sp s o p = Some (sid, sh) /\ sh_sp sh = p.
-Proof. exact complete_actor. Qed.
+Proof. first [exact complete_actor | apply complete_actor]. Qed.
 Print Assumptions C10_complete_actor.
 
 Theorem C10_cancel_actor : forall cx s c p oid s' d,
   step cx s (OCancel c p oid) = (s', OutTx COk d) ->
   exists o, orders s !! oid = Some o /\ o_status o <> OrderCompleted /\ acts_for s c p = true /\
     (o_creator o = c \/ (p = o_provider o /\ exists n, nodes s !! o_provider o = Some n /\ In (o_creator o) (n_tx n))).
-Proof. exact cancel_actor. Qed.
+Proof. first [exact cancel_actor | apply cancel_actor]. Qed.
 Print Assumptions C10_cancel_actor.
 
 Theorem C10_node_msgs_frame : forall cx s op c k, node_op_signer op = Some c -> k <> c ->
   nodes (fst (step cx s op)) !! k = nodes s !! k /\ pledges (fst (step cx s op)) !! k = pledges s !! k /\
   (k <> macc NODE -> k <> macc MARKET -> bal (fst (step cx s op)) !! k = bal s !! k).
-Proof. exact node_msgs_frame. Qed.
+Proof. first [exact node_msgs_frame | apply node_msgs_frame]. Qed.
 Print Assumptions C10_node_msgs_frame.
 
 Theorem C10_store_payer : forall cx s m s' d a, step cx s (OStore m) = (s', OutTx COk d) -> balance s' a < balance s a ->
@@ -41,7 +41,7 @@ Theorem C10_store_payer : forall cx s m s' d a, step cx s (OStore m) = (s', OutT
       (st_pprovider m = st_creator m /\ st_provider m = st_creator m) \/
       (st_pprovider m = st_provider m /\ exists n, nodes s !! st_provider m = Some n /\ In (st_creator m) (n_tx n)))) \/
   (st_paydid m <> "" /\ pay_addr s (st_paydid m) = Some a /\ a = st_creator m).
-Proof. exact store_payer. Qed.
+Proof. first [exact store_payer | apply store_payer]. Qed.
 Print Assumptions C10_store_payer.
 
 Theorem C10_renew_payer_witness :
@@ -52,5 +52,5 @@ Theorem C10_renew_payer_witness :
   balance s "ownerAddr" = 100 /\ balance s' "ownerAddr" = 99 /\
   balance s "granteeAddr" = 100 /\ balance s' "granteeAddr" = 100 /\
   (exists em', metas s' !! "11111111-1111-1111-1111-111111111111" = Some em' /\ m_orders em' = [0; 1] /\ m_order em' = 1).
-Proof. exact renew_payer_witness. Qed.
+Proof. first [exact renew_payer_witness | apply renew_payer_witness]. Qed.
 Print Assumptions C10_renew_payer_witness.
